@@ -55,3 +55,63 @@ def mergeDecision (ff : FFMode) (head other base : Nat) : MergeOutcome :=
   | _ => if ff == .only then .rejected else .realMerge
 
 end Wrgl
+
+namespace Wrgl
+
+/-! ### decision tables regenerated from the source (extract/paths.go)
+
+A table is a list of guard lists: one list per call that performs the update, holding the branch
+conditions on the way to that call as (polarity, source text) pairs. The functions below
+interpret such a table over named atoms. -/
+
+def evalGuard (atom : String → Option Bool) (g : Bool × String) : Option Bool :=
+  (atom g.2).map (fun b => if g.1 then b else !b)
+
+def guardsHold (atom : String → Option Bool) (p : List (Bool × String)) : Option Bool :=
+  p.foldl (fun acc c => match acc, evalGuard atom c with
+    | some a, some b => some (a && b)
+    | _, _ => none) (some true)
+
+/-- does some row of the table fire? `none`: a guard the interpretation does not know -/
+def tableFires (atom : String → Option Bool) (t : List (List (Bool × String))) : Option Bool :=
+  t.foldl (fun acc p => match acc, guardsHold atom p with
+    | some a, some b => some (a || b)
+    | _, _ => none) (some false)
+
+/-- the situation of one ref in `saveFetchedRefs` / `identifyUpdates` -/
+structure GEnv where
+  eq : Bool      -- old value = new value
+  tag : Bool     -- the destination is a tag
+  isNil : Bool   -- there is no old value
+  ff : Bool      -- the old value is an ancestor of the new one
+  force : Bool   -- `--force` or a `+` refspec
+  deriving Repr, DecidableEq
+
+def fetchAtom (e : GEnv) : String → Option Bool
+  | "bytes.Equal(oldSum, sum)" => some e.eq
+  | "oldSum != nil && strings.HasPrefix(r.Dst(), 'tags/')" => some (!e.isNil && e.tag)
+  | "oldSum == nil" => some e.isNil
+  | "err != nil" => some false
+  | "fastForward" => some e.ff
+  | "force || r.Force" => some e.force
+  | _ => none
+
+/-- what the source's table says for a push; the trailing `Force=…` marker is not a guard -/
+def pushAtom (e : GEnv) : String → Option Bool
+  | "err != nil" => some false
+  | "ok" => some (!e.isNil)
+  | "string(v) == string(sum)" => some e.eq
+  | "sum == nil" => some false            -- deletions are not modelled (the local ref exists)
+  | "sum != nil" => some true
+  | "strings.HasPrefix(dst, 'tags/')" => some e.tag
+  | "fastForward" => some e.ff
+  | "force || s.Force" => some e.force
+  | "Force=true" => some true
+  | "Force=false" => some true
+  | _ => none
+
+/-- the model's decision in the same vocabulary -/
+def GEnv.old (e : GEnv) : Option Nat := if e.isNil then none else some 0
+def GEnv.new (e : GEnv) : Nat := if e.eq && !e.isNil then 0 else 1
+
+end Wrgl
